@@ -57,7 +57,8 @@ class Doc:
         n = 6 if rt == "L" else 7
         for t in r[n:]:
           if t.startswith("ID:Z:"):
-            return t[5:]
+            # `*` is the placeholder, not an identifier, also in a Z tag
+            return None if t[5:] == "*" else t[5:]
       return None
     if rt in ("S", "E", "G", "O", "U"):
       return None if r[1] == "*" else r[1]
